@@ -476,6 +476,12 @@ func RecordFreePanic(name string, r interface{}) {
 	freeMu.Unlock()
 }
 
+func HasFreePanics() bool {
+	freeMu.Lock()
+	defer freeMu.Unlock()
+	return len(FreePanics) > 0
+}
+
 func TakeFreePanics() []*PanicRec {
 	freeMu.Lock()
 	defer freeMu.Unlock()
